@@ -15,13 +15,11 @@ DRV = ["drv_epn.c"]
 # SG18_P638 = 46.  A set of this list that can no longer be selected is a VIOLATION (BADCURVE), a configuration that
 # does not build or offers no identifier on the unchanged tree is reported as skipped.
 SETS_QUICK = [("fp315", 4, [25], "slice")]
-# thorough: the levels that have been run to the end on the unchanged tree.  C11_EXT_DEEP=1 selects the deeper levels
-# (fp315 "mid", fp508 / fp330 / fp638 / fp317 / fp509 "small"), whose first complete run exposed rejections in the
-# multiplication routines that are being triaged (DESIGN 7.8) - they are not part of the registered command until then.
+# thorough: fp315 "mid" + fp508 "small" (run to the end on the repaired tree: 1993 events accepted); C11_EXT_SETS=<n> extends
+# the list to the further quartic / cubic sets (fp330, fp638, fp317, fp509), which have not been run to the end yet.
 _DEEP = [("fp315", 4, [25], "mid"), ("fp508", 3, [36], "small"), ("fp330", 4, [27], "small"),
          ("fp638", 3, [45, 46], "small"), ("fp317", 4, [26], "small"), ("fp509", 4, [37], "small")]
-SETS_THOROUGH = (_DEEP[:int(os.environ.get("C11_EXT_SETS", "2"))] if os.environ.get("C11_EXT_DEEP") == "1"
-                 else [("fp315", 4, [25], "slice")]) + [
+SETS_THOROUGH = _DEEP[:int(os.environ.get("C11_EXT_SETS", "2"))] + [
                  # not selectable in the portable configuration on the unchanged tree (ep8_curve_set_twist / ep4_curve_set_twist
                  # throw ERR_NO_PRECI reading the cofactor with the default BN_PRECI): reported as skipped
                  ("fp575", 8, [], "small"), ("fp766", 4, [], "small")]
